@@ -210,7 +210,7 @@ pub fn explore_scenario(
             break;
         }
         // scenarios whose outcome depends on process-wide counters starting fresh run every execution in a child process
-        let (res, diverged, ct) = if scn.has_tag("fresh_process") {
+        let (res, diverged, ct) = if scn.has_tag("fresh_process") || TAINTED.load(std::sync::atomic::Ordering::SeqCst) {
             match run_schedule_fresh(scn, &prefix) {
                 Some(x) => x,
                 None => {
@@ -269,10 +269,29 @@ pub fn explore_scenario(
         if !v.is_empty() {
             // replay twice, each time in a fresh process (process-wide statics of rsactor may have been damaged
             // by the very defect that is being reported): a violation must reproduce identically before it is reported
-            let same = fresh_replay_hash(scn, &chosen) == Some(h) && fresh_replay_hash(scn, &chosen) == Some(h);
+            let mut same = fresh_replay_hash(scn, &chosen) == Some(h) && fresh_replay_hash(scn, &chosen) == Some(h);
+            let mut ct = ct;
+            if !same {
+                // this worker process carries state that a fresh process does not (rsactor's process-wide statics
+                // damaged by an earlier execution): what the fresh process shows is what counts, and from here on
+                // this worker runs every execution in a child process
+                TAINTED.store(true, std::sync::atomic::Ordering::SeqCst);
+                if let (Some((r1, d1, t1)), Some((_, d2, t2))) = (run_schedule_fresh(scn, &chosen), run_schedule_fresh(scn, &chosen)) {
+                    let neutral = scn.has_tag("feature_neutral");
+                    let hh = |t: &Vec<Ev>| if neutral { hash_trace(&feature_neutral(t)) } else { hash_trace(t) };
+                    if !d1 && !d2 && r1.error.is_none() && hh(&t1) == hh(&t2) {
+                        let fv = monitor(scn, &t1);
+                        let _ = crate::mon::take_premises();
+                        if !fv.is_empty() {
+                            v = fv;
+                            ct = t1;
+                            same = true;
+                        }
+                    }
+                }
+            }
             // keep the artefact readable: the first violations and the first events are enough to understand it
             v.truncate(8);
-            let mut ct = ct;
             ct.truncate(600);
             found = Some(Found {
                 scenario: (**scn).clone(),
@@ -472,6 +491,10 @@ pub fn feature_neutral(t: &[Ev]) -> Vec<Ev> {
         .cloned()
         .collect()
 }
+
+/// Set once an in-process violation failed to reproduce in a fresh process: the worker no longer trusts its own
+/// process state and runs every further execution in a child process.
+pub static TAINTED: std::sync::atomic::AtomicBool = std::sync::atomic::AtomicBool::new(false);
 
 /// Hash of the canonical trace of (scenario, schedule), computed by a fresh child process of this binary.
 pub fn fresh_replay_hash(scn: &Arc<Scenario>, schedule: &[u16]) -> Option<u64> {
